@@ -25,8 +25,12 @@ func c08(r *Report) {
 	r.MustReach(MustReach{ID: "C08.sametx.digests-updated-with-graph", Fn: wcl, SuccessOnly: true, Cond: ErrCheck(Fn(dag, "dag", "add")), Target: Fn(dag, "state", "updateState")})
 	r.Gate(Gate{ID: "C08.sametx.update-failure-aborts", Fn: wcl, Effect: SuccessReturn(), Check: ErrCheck(Fn(dag, "state", "updateState")), Alt: []Check{CallCheck(Fn(dag, "dag", "isPresent"), -1, IsTrue)}})
 	us := p.Func(dag, "state", "updateState")
-	r.Gate(Gate{ID: "C08.update.iblt", Fn: us, Effect: SuccessReturn(), Check: Check{Desc: "ibltTree.write err == nil", Call: ptr(Fn(dag, "treeStore", "write")), Result: -1, Pass: ErrNil, Filter: func(ci ssa.CallInstruction) bool { return strings.Contains(AccessPath(ci.Common().Args[0], 0), "ibltTree") }}})
-	r.Gate(Gate{ID: "C08.update.xor", Fn: us, Effect: SuccessReturn(), Check: Check{Desc: "xorTree.write err == nil", Call: ptr(Fn(dag, "treeStore", "write")), Result: -1, Pass: ErrNil, Filter: func(ci ssa.CallInstruction) bool { return strings.Contains(AccessPath(ci.Common().Args[0], 0), "xorTree") }}})
+	r.Gate(Gate{ID: "C08.update.iblt", Fn: us, Effect: SuccessReturn(), Check: Check{Desc: "ibltTree.write err == nil", Call: ptr(Fn(dag, "treeStore", "write")), Result: -1, Pass: ErrNil, Filter: func(ci ssa.CallInstruction) bool {
+		return strings.Contains(AccessPath(ci.Common().Args[0], 0), "ibltTree")
+	}}})
+	r.Gate(Gate{ID: "C08.update.xor", Fn: us, Effect: SuccessReturn(), Check: Check{Desc: "xorTree.write err == nil", Call: ptr(Fn(dag, "treeStore", "write")), Result: -1, Pass: ErrNil, Filter: func(ci ssa.CallInstruction) bool {
+		return strings.Contains(AccessPath(ci.Common().Args[0], 0), "xorTree")
+	}}})
 	c08SameTxHandle(r, wcl, us)
 	da := p.Func(dag, "dag", "add")
 	r.Gate(Gate{ID: "C08.graph.highest-clock", Fn: da, Effect: SuccessReturn(), Check: ErrCheck(Fn(dag, "dag", "setHighestClockValue"))})
